@@ -31,6 +31,30 @@ CLAIMED = {
          "go/types and the go tool chain are trusted; parameter types outside the alphabet (int, imported named, pointer to imported struct) are not covered.",
          "DESIGN.md §3 C08"),
 }
+
+CLAIMED.update({
+ "C03": ("model_checking",
+         "deviation-bounded exhaustive enumeration of file layouts (and of well-formed notation mixes) through the real CLI",
+         "14-dimensional layout alphabet (build-constraint spelling, package doc, neighbouring declarations, blank lines, interface/method comments in every position, methods per interface, method-name length, interface-body size vs the 21-character marker, 1-3 interfaces adjacent or apart, imports): every layout within 2 (quick) / 3 (thorough, 11.6k files) deviations of the README layout plus the complete marker-arithmetic sub-product, and every well-formed cell of F2/F4; each must exit 0 and yield exactly one function per method with no marker or interface text left behind. The random marker is pinned through the overlay seam so leftovers are recognisable.",
+         "Complete only up to the reported deviation level; `well-formed` for the notation mixes is decided by the reference (refgen.WellFormed).",
+         "DESIGN.md §3 C03"),
+ "C11": ("model_checking",
+         "deviation-bounded exhaustive enumeration of file layouts through the real CLI; AST/comment-map comparison of output vs setup file",
+         "Same layout space as C03 with content around the interfaces; for every accepted file the ordered list of carried-over declarations (gofmt-normalised source incl. doc comments), the package doc, the multiset of comments outside converter interfaces, each generated function's doc (== non-notation method comment lines) and the referenced/blank imports must match the setup file, and no build constraint, go:generate or converter notation line may remain.",
+         "Comments lexically inside a converter interface and a comment on the line of its closing brace are don't-care by construction (DESIGN §3 C11).",
+         "DESIGN.md §3 C11"),
+ "C14": ("model_checking",
+         "bounded-exhaustive enumeration of malformed inputs through the real CLI with a crash / hang / diagnostic-position oracle",
+         "All notation argument strings over a 12-symbol alphabet up to length 2 (quick) / 3 (thorough) for the 9 argument-taking keywords, all two-slot strings, plain/unknown keywords; 89 kinds of objects named by :conv/:preprocess/:postprocess; 19x19 operand kinds and parameter/result counts 0..3 with error in every position; every F1 field-type pair; files without a usable converter interface and odd CLI inputs (73k runs thorough). Every run must terminate, must not panic, must print a message when it fails - positioned at the offending notation or method for notation/method errors - and must not succeed while dropping a method.",
+         "A run is a crash iff it dies on a signal, prints a Go panic/fatal trace or exits with a status above 2 (status 2 alone is the flag package's usage error). Timeouts are re-run 3 times before counting as a hang.",
+         "DESIGN.md §3 C14"),
+ "C17": ("model_checking",
+         "bounded-exhaustive enumeration of marking mixes through the real CLI",
+         "Every sequence of up to 2 (quick) / 3 (thorough) interfaces in the input file over 11 marking kinds x 5 sibling-file variants x {distinct method names, one method name under different :recv}; generated functions must be exactly the methods of the input file's interfaces named Convergen or carrying a :convergen doc line, every other interface must be carried over textually identical, sibling-file interfaces yield nothing, and a file without a marked interface is rejected.",
+         "Grouped type declarations and block-comment markers are outside the alphabet (the property speaks of interfaces declared on their own).",
+         "DESIGN.md §3 C17"),
+})
+
 PENDING_REASON = "check not built yet in this round (work in progress; see DESIGN.md §8 build order) - not a claim that model checking cannot apply"
 
 props = [json.loads(l) for l in open(os.path.join(HERE, "properties.jsonl"))]
